@@ -1,8 +1,10 @@
 #!/usr/bin/env python3
-"""Run the quick (or thorough) check of each seeded mutant's property with the mutant applied to /repo.
-usage: run_mutants.py [--tier quick|thorough] [--also C07,C09] [names...]   (default: all under /verif/seeded)
-Applies seeded/<name>/patch.diff with git apply, runs ./check <prop> <tier>, reverts with git checkout.
-Evidence goes to work/evidence-mut so the committed evidence is not clobbered."""
+"""Run the quick (or thorough) check of each seeded change's property with the change applied.
+usage: run_mutants.py [--tier quick|thorough] [--also C07,C09] [--in-repo] [names...]   (default: all under /verif/seeded)
+By default the patch is applied in a scratch worktree of /repo's HEAD (/tmp/wt-mut) and the check
+runs with VERIF_REPO pointing there (own build and run directories, /repo is not touched). With
+--in-repo the patch is applied to /repo itself with git apply and reverted with git checkout
+afterwards (the way the brief describes; never while another run is building from /repo)."""
 import json, os, subprocess, sys, time
 VERIF = os.path.dirname(os.path.dirname(os.path.abspath(__file__)))
 args = sys.argv[1:]
@@ -10,16 +12,26 @@ tier = "quick"
 extra = []
 if "--tier" in args:
     i = args.index("--tier"); tier = args[i+1]; del args[i:i+2]
+in_repo = "--in-repo" in args
+if in_repo:
+    args.remove("--in-repo")
 if "--also" in args:
     i = args.index("--also"); extra = args[i+1].split(","); del args[i:i+2]
 names = args or sorted(os.listdir(os.path.join(VERIF, "seeded")))
+TREE = "/repo" if in_repo else "/tmp/wt-mut"
 env = dict(os.environ, VERIF_EVIDENCE_DIR=os.path.join(VERIF, "work", "evidence-mut"))
+if not in_repo:
+    env["VERIF_REPO"] = TREE
+    head = subprocess.run("git -C /repo rev-parse HEAD", shell=True, capture_output=True, text=True).stdout.strip()
+    if not os.path.isdir(TREE):
+        subprocess.run("git -C /repo worktree add -q --detach %s HEAD" % TREE, shell=True, check=True)
+    subprocess.run("git -C %s checkout -q -- . && git -C %s clean -fdq && git -C %s checkout -q --detach %s" % (TREE, TREE, TREE, head), shell=True, check=True)
 
 def clean():
-    r = subprocess.run("git -C /repo status --porcelain", shell=True, capture_output=True, text=True)
+    r = subprocess.run("git -C %s status --porcelain" % TREE, shell=True, capture_output=True, text=True)
     return r.stdout.strip() == ""
 
-assert clean(), "/repo is not clean"
+assert clean(), TREE + " is not clean"
 results = {}
 for n in names:
     d = os.path.join(VERIF, "seeded", n)
@@ -27,7 +39,7 @@ for n in names:
         continue
     meta = json.load(open(os.path.join(d, "meta.json")))
     props = [meta["property"]] + [e for e in extra if e != meta["property"]]
-    r = subprocess.run(["git", "-C", "/repo", "apply", os.path.join(d, "patch.diff")], capture_output=True, text=True)
+    r = subprocess.run(["git", "-C", TREE, "apply", os.path.join(d, "patch.diff")], capture_output=True, text=True)
     if r.returncode != 0:
         print(n, "PATCH-DOES-NOT-APPLY", r.stderr[:200]); continue
     try:
@@ -45,7 +57,7 @@ for n in names:
             if status == "INCONCLUSIVE":
                 print(r.stdout[-1500:])
     finally:
-        subprocess.run("git -C /repo checkout -- . && git -C /repo clean -fdq", shell=True)
+        subprocess.run("git -C %s checkout -- . && git -C %s clean -fdq" % (TREE, TREE), shell=True)
 assert clean()
 out = os.path.join(VERIF, "work", "mutants-%s.json" % tier)
 prev = json.load(open(out)) if os.path.exists(out) else {}
